@@ -143,6 +143,8 @@ func (c *ntlmContext) authenticate(am *ntlm.AuthenticateMessage, r *auth.NtlmRes
         password := c.h.Database.GetPassword (username)
         if password == "" {
 		log.Printf("NTLM: unknown username specified: %s", username)
+		// a challenge is good for one authenticate message only
+		c.session = nil
 		return nil
         }
         
@@ -151,6 +153,9 @@ func (c *ntlmContext) authenticate(am *ntlm.AuthenticateMessage, r *auth.NtlmRes
         err := c.session.ProcessAuthenticateMessage(am)
         if err != nil {
 		log.Printf("Failed to process NTLM authenticate message: %s", err)
+		// drop the session: it caches the response keys of the user named in
+		// this failed attempt and would apply them to the next attempt
+		c.session = nil
 		return nil
         }
 
